@@ -30,8 +30,13 @@ def plan(tier):
 
 def _board(bid, owner, declarer, dbl, vul, plays, positions, stats=None):
     positions = set(positions) | {52}
+    other = other_room(bid, owner, declarer, vul, plays)
     b = PL.Board(owner, (bid, declarer, dbl, vul), observers=True)
     cards, _ = PL.script_cards(owner, declarer, bid % 5, plays)
+    if other is not None:
+        b.case = (lambda f: lambda extra=None: dict(f(extra), other_room_played_first=other))(b.case)
+        if stats is not None:
+            stats.cls('boards played after the same deal was begun in the other room')
     b.check_conservation()
     nf = 0
     for i in range(53):
@@ -73,6 +78,19 @@ def _board(bid, owner, declarer, dbl, vul, plays, positions, stats=None):
                  if bid in (0, 9, 22) else None)
 
 
+def other_room(bid, owner, declarer, vul, plays):
+    """One board in three: the same deal is first begun at another table of the same process (other contract and declarer,
+    1-6 cards played, then left) - every table owns its cards."""
+    if (bid + declarer) % 3:
+        return None
+    n = 1 + (bid * 7 + declarer) % 6
+    bid0, decl0 = (bid + 7) % 35, (declarer + 1) % 4
+    b0 = PL.Board(owner, (bid0, decl0, 0, vul), observers=True)
+    for c in PL.script_cards(owner, decl0, bid0 % 5, plays)[0][:n]:
+        b0.play(c)
+    return n
+
+
 def _check_observer_hands(b):
     for o, ob in enumerate(b.obs):
         case = b.case({'observer': A.SEATS[o]})
@@ -105,6 +123,8 @@ def replay(rec):
     c = rec['case']
     try:
         owner, contract = parse_board_case(c)
+        if c.get('other_room_played_first'):
+            other_room(contract[0], owner, contract[1], contract[3], [(True, 0)] * 52)
         b = PL.Board(owner, contract, observers=True)
         cards = _parse_cards(c['played'])
 
